@@ -104,7 +104,7 @@ func bbox(q [8]float64) (minx, miny, maxx, maxy float64) {
 // checkMap compares the library transform built by build() with the exact map src -> dst: the
 // four corners, a 9x9 probe lattice over the source's bounding box (through TransformPoints and
 // through TransformPointsXY), and odd/zero-length inputs. suffix distinguishes the constructor.
-func checkMap(l *mc.Local, kind, suffix string, src, dst [8]float64, build func() *common.PerspectiveTransform) {
+func checkMap(l *mc.Local, kind, suffix string, src, dst [8]float64, build func() *common.PerspectiveTransform, relTo ...float64) {
 	rc := rcase{Kind: kind, Src: src, Dst: dst}
 	l.Count("evaluations", 1)
 	ex, ok := solveProjective(quadF(src), quadF(dst))
@@ -124,6 +124,9 @@ func checkMap(l *mc.Local, kind, suffix string, src, dst [8]float64, build func(
 	}
 	for i := 0; i < 4; i++ {
 		sc := math.Max(1, math.Max(math.Abs(dst[2*i]), math.Abs(dst[2*i+1])))
+		if len(relTo) > 0 {
+			sc = relTo[0] // scale ladder: errors are judged relative to the extent of the destination quadrilateral
+		}
 		if !within(pts[2*i], dst[2*i], sc) || !within(pts[2*i+1], dst[2*i+1], sc) {
 			chk.Violation("C19/transform/corner"+suffix, fmt.Sprintf("%s %v -> %v: source corner %d (%v,%v) is mapped to (%v,%v), destination is (%v,%v)",
 				kind, src, dst, i, src[2*i], src[2*i+1], pts[2*i], pts[2*i+1], dst[2*i], dst[2*i+1]), rc)
@@ -163,6 +166,16 @@ func checkMap(l *mc.Local, kind, suffix string, src, dst [8]float64, build func(
 	}
 	for k := 0; k < len(xs); k++ {
 		sc := math.Max(1, math.Max(math.Abs(want[2*k]), math.Abs(want[2*k+1])))
+		if len(relTo) > 0 {
+			sc = math.Max(relTo[0], math.Max(math.Abs(want[2*k]), math.Abs(want[2*k+1])))
+			if sc > 8*relTo[0] {
+				// a probe of the source bounding box that maps far outside the destination quadrilateral lies
+				// next to the horizon of the map, where the problem itself is ill-conditioned; the horizon rule
+				// of the unscaled families is an absolute one, so it is restated relative to the extent here
+				l.Count("probe-skipped-far-outside-scaled-destination", 1)
+				continue
+			}
+		}
 		if !within(got[2*k], want[2*k], sc) || !within(got[2*k+1], want[2*k+1], sc) {
 			chk.Violation("C19/transform/probe"+suffix, fmt.Sprintf("%s %v -> %v: point (%v,%v) is mapped to (%v,%v), the projective map through the four pairs gives (%v,%v)",
 				kind, src, dst, in[2*k], in[2*k+1], got[2*k], got[2*k+1], want[2*k], want[2*k+1]), rc)
@@ -235,6 +248,42 @@ func runTransform() {
 				checkMap(l, "transform", "", dstFamily[i].q, dstFamily[k].q, q2q(dstFamily[i].q, dstFamily[k].q))
 				l.Distinct("nontrivial", fmt.Sprint("TF", i, k))
 			}
+		})
+	// scale ladder: the same maps in other units. Projective maps are scale free; the error bound
+	// of the property is RELATIVE, so here it is judged against the extent of the destination
+	// quadrilateral (the families above floor the scale at one pixel, as pixel coordinates are)
+	scales := []float64{1e-9, 1e-7, 1e-6, 1e-5, 1e-3, 1e3, 1e6}
+	type lad struct {
+		i, k   int
+		ss, sd float64
+	}
+	var lads []lad
+	for i := range dstFamily {
+		for k := range dstFamily {
+			for _, s := range scales {
+				lads = append(lads, lad{i, k, s, 1}, lad{i, k, 1, s}, lad{i, k, s, s})
+			}
+		}
+	}
+	chk.Range(fmt.Sprintf("transform: scale ladder: destination family x destination family (%d ordered pairs) with the source side, the destination side or both scaled by %v; corner and probe errors relative to the extent of the destination quadrilateral", len(dstFamily)*len(dstFamily), scales), len(lads),
+		func(i int) string { return fmt.Sprint(lads[i]) },
+		func(l *mc.Local, i int) {
+			x := lads[i]
+			src, dst := dstFamily[x.i].q, dstFamily[x.k].q
+			ext := 0.0
+			for c := 0; c < 8; c++ {
+				src[c] *= x.ss
+				dst[c] *= x.sd
+				ext = math.Max(ext, math.Abs(dst[c]))
+			}
+			checkMap(l, "transform", "/scaled", src, dst, q2q(src, dst), ext)
+			checkMap(l, "s2q", "/SquareToQuadrilateral/scaled", unitSquare, dst, func() *common.PerspectiveTransform {
+				return common.PerspectiveTransform_SquareToQuadrilateral(dst[0], dst[1], dst[2], dst[3], dst[4], dst[5], dst[6], dst[7])
+			}, ext)
+			checkMap(l, "q2s", "/QuadrilateralToSquare/scaled", src, unitSquare, func() *common.PerspectiveTransform {
+				return common.PerspectiveTransform_QuadrilateralToSquare(src[0], src[1], src[2], src[3], src[4], src[5], src[6], src[7])
+			}, 1)
+			l.Distinct("nontrivial", fmt.Sprint("TS", x))
 		})
 	// zero-length and one-float inputs must not panic
 	t := q2q(unitSquare, dstFamily[3].q)()
